@@ -35,13 +35,26 @@ def mk_gmm(w, m, v, thr=None, order="thr_first", **kw):
     thr_first  floors, then weights/means/variances (what from_hdf5 does);
     thr_last   weights/means/variances, then the floors (the floors clamp what is already stored);
     ubm_copy   a MAP machine constructed from a UBM built thr_first (the constructor copies means, variances, floors, weights);
-    restage    variances set to something else first, floors raised in two steps, then the final variances."""
+    restage    variances set to something else first, floors raised in two steps, then the final variances;
+    hdf5_ubm   saved, then loaded with from_hdf5(path, ubm=<a machine with other parameters>)."""
     from bob.learn.em import GMMMachine
 
     w, m, v = (np.array(a, dtype=float) for a in (w, m, v))
     t = None if thr is None else (np.array(thr, dtype=float) if np.ndim(thr) else float(thr))
     if order == "ubm_copy":
         return GMMMachine(len(w), trainer="map", ubm=mk_gmm(w, m, v, thr=thr), **kw)
+    if order == "hdf5_ubm":
+        # written to a file and read back next to a prior with other parameters (from_hdf5(..., ubm=...) first builds the machine
+        # from the prior, then restores the stored fields): what counts are the stored parameters
+        import os
+
+        os.makedirs(core.WORK, exist_ok=True)
+        path = os.path.join(core.WORK, "mk_gmm.h5")
+        if os.path.exists(path):
+            os.remove(path)
+        mk_gmm(w, m, v, thr=thr, **kw).save(path)
+        other = mk_gmm(w[::-1].copy(), m + 1.0, v * 3.0 + 0.1)
+        return GMMMachine.from_hdf5(path, ubm=other)
     g = GMMMachine(len(w), **kw)
     if order == "thr_last":
         g.weights, g.means, g.variances = w, m, v
